@@ -47,30 +47,32 @@ def run (F : Family σ ο) (s : S σ) : List (Ev ο) → S σ
   | e :: t => run F (next F s e) t
 
 /-- side conditions of a history: every mutator call is admissible, every fetched view satisfies the
-family invariant, and every view that writes itself back round-trips through the header codec -/
-def okHist [DecidableEq σ] (F : Family σ ο) (I : σ → Bool) (adm : σ → ο → Bool) (s : S σ) : List (Ev ο) → Bool
+family invariant, and every view that writes itself back round-trips through the header codec
+(`E` is the equality of views: plain equality, or equality up to the order of an unordered part) -/
+def okHist (F : Family σ ο) (E : σ → σ → Bool) (I : σ → Bool) (adm : σ → ο → Bool) (s : S σ) : List (Ev ο) → Bool
   | [] => true
   | .view op :: t =>
     adm s.v op &&
-    (let r := F.vstep s.v op; !r.2 || decide (F.load (F.write s.h r.1) = r.1)) &&
-    okHist F I adm (next F s (.view op)) t
+    (let r := F.vstep s.v op; !r.2 || E (F.load (F.write s.h r.1)) r.1) &&
+    okHist F E I adm (next F s (.view op)) t
   | .refetch :: t =>
-    I (F.load s.h) && decide (F.load (F.refetchH s.h) = F.load s.h) && okHist F I adm (next F s .refetch) t
-  | .edit f :: t => okHist F I adm (next F s (.edit f)) t
+    I (F.load s.h) && E (F.load (F.refetchH s.h)) (F.load s.h) && okHist F E I adm (next F s .refetch) t
+  | .edit f :: t => okHist F E I adm (next F s (.edit f)) t
 
 /-- the generic coherence argument -/
-theorem coherent [DecidableEq σ] (F : Family σ ο) (I : σ → Bool) (adm : σ → ο → Bool)
+theorem coherent (F : Family σ ο) (E : σ → σ → Bool) (I : σ → Bool) (adm : σ → ο → Bool)
     (hstep : ∀ v op, I v = true → adm v op = true → I (F.vstep v op).1 = true)
     (hquiet : ∀ v op, I v = true → adm v op = true → (F.vstep v op).2 = false → (F.vstep v op).1 = v)
-    (evs : List (Ev ο)) (s : S σ) (hI : I s.v = true) (hs : s.synced = true → F.load s.h = s.v)
-    (hok : okHist F I adm s evs = true) :
-    I (run F s evs).v = true ∧ ((run F s evs).synced = true → F.load (run F s evs).h = (run F s evs).v) := by
+    (evs : List (Ev ο)) (s : S σ) (hI : I s.v = true) (hs : s.synced = true → E (F.load s.h) s.v = true)
+    (hok : okHist F E I adm s evs = true) :
+    I (run F s evs).v = true ∧
+    ((run F s evs).synced = true → E (F.load (run F s evs).h) (run F s evs).v = true) := by
   induction evs generalizing s with
   | nil => exact ⟨hI, hs⟩
   | cons e t ih =>
     cases e with
     | view op =>
-      simp only [okHist, Bool.and_eq_true, Bool.or_eq_true, Bool.not_eq_true', decide_eq_true_eq] at hok
+      simp only [okHist, Bool.and_eq_true, Bool.or_eq_true, Bool.not_eq_true'] at hok
       obtain ⟨⟨hadm, hrt⟩, hrest⟩ := hok
       apply ih (next F s (.view op)) (hstep _ _ hI hadm) _ hrest
       simp only [next]
@@ -86,12 +88,17 @@ theorem coherent [DecidableEq σ] (F : Family σ ο) (I : σ → Bool) (adm : σ
         rw [hquiet _ _ hI hadm hn]
         exact hs hsy
     | refetch =>
-      simp only [okHist, Bool.and_eq_true, decide_eq_true_eq] at hok
+      simp only [okHist, Bool.and_eq_true] at hok
       obtain ⟨⟨hi, hrt⟩, hrest⟩ := hok
       exact ih (next F s .refetch) hi (fun _ => hrt) hrest
     | edit f =>
       simp only [okHist] at hok
       exact ih (next F s (.edit f)) hI (fun h => by simp [next] at h) hok
+
+/-- plain equality as a view equality -/
+def eqB [DecidableEq σ] (a b : σ) : Bool := decide (a = b)
+
+theorem eqB_iff [DecidableEq σ] (a b : σ) : eqB a b = true ↔ a = b := by simp [eqB]
 
 /-- an effective mutation (the view changed) always notifies, hence the headers are rewritten from
 the new view -/
@@ -290,5 +297,23 @@ theorem pyInt_intText (i : Int) : CC.pyInt (CC.intText i) = some i := by
   | negSucc n =>
     simp only [CC.intText, CC.pyInt, digitsVal_natText, Option.map_some]
     rfl
+
+theorem natText_noNL (n : Nat) : hasNL (CC.natText n) = false := by
+  unfold hasNL CC.natText
+  rw [Bool.eq_false_iff]
+  intro hc
+  rw [List.any_eq_true] at hc
+  obtain ⟨c, hm, hnl⟩ := hc
+  have hd := Nat.isDigit_of_mem_toDigits (b := 10) (by decide) (by decide) hm
+  simp only [isNL, Bool.or_eq_true, beq_iff_eq] at hnl
+  rcases hnl with e | e <;> (subst e; simp [Char.isDigit] at hd)
+
+theorem intText_noNL (i : Int) : hasNL (CC.intText i) = false := by
+  cases i with
+  | ofNat n => exact natText_noNL n
+  | negSucc n =>
+    have := natText_noNL (n + 1)
+    simp only [CC.intText, hasNL, List.any_cons] at this ⊢
+    simp [isNL, this]
 
 end Wz.C16L
